@@ -55,14 +55,14 @@ pub fn take_pdu() -> Option<(VariableID, PDU)> {
 }
 pub struct Chans {
     pub tx: Sender<(VariableID, PDU)>,
-    pub rx: Receiver<(VariableID, PDU)>,
+    pub rx: std::cell::RefCell<Receiver<(VariableID, PDU)>>,
     pub ind_tx: Sender<Indication>,
     pub ind_rx: Receiver<Indication>,
 }
 pub fn chans() -> Chans {
     let (tx, rx) = channel::<(VariableID, PDU)>(4);
     let (ind_tx, ind_rx) = channel::<Indication>(1);
-    Chans { tx, rx, ind_tx, ind_rx }
+    Chans { tx, rx: std::cell::RefCell::new(rx), ind_tx, ind_rx }
 }
 
 // ------------------------------------------------------------------------------------------------ S5
@@ -181,35 +181,122 @@ pub fn io_copy_stub<R: ?Sized + Read, W: ?Sized + Write>(r: &mut R, w: &mut W) -
     }
     Ok(n)
 }
-pub fn handle(i: usize) -> File {
-    unsafe { File::from_raw_fd(FD0 + i as i32) }
-}
-pub fn set_file(i: usize, data: &[u8]) {
-    unsafe {
-        let mut k = 0;
-        while k < data.len() && k < CAP {
-            DATA[i][k] = data[k];
-            k += 1;
+// The accessors below have two back ends: the in-memory table (verification, `cfg(not(test))`) and REAL temporary
+// files (native replay of a counterexample with `cargo kani playback`, `cfg(test)`: no stub is active there, the
+// real `std::fs`, tokio channel and hasher run).
+#[cfg(not(test))]
+mod backend {
+    use super::*;
+    pub fn handle(i: usize) -> File {
+        unsafe { File::from_raw_fd(FD0 + i as i32) }
+    }
+    pub fn set_file(i: usize, data: &[u8]) {
+        unsafe {
+            let mut k = 0;
+            while k < data.len() && k < CAP {
+                DATA[i][k] = data[k];
+                k += 1;
+            }
+            LEN[i] = data.len();
+            POS[i] = 0;
         }
-        LEN[i] = data.len();
-        POS[i] = 0;
+    }
+    pub fn truncate(i: usize) {
+        unsafe {
+            LEN[i] = 0;
+            POS[i] = 0;
+        }
+    }
+    pub fn file_len(i: usize) -> usize {
+        unsafe { LEN[i] }
+    }
+    pub fn file_byte(i: usize, k: usize) -> u8 {
+        unsafe { DATA[i][k] }
+    }
+    pub fn file_pos(i: usize) -> usize {
+        unsafe { POS[i] }
+    }
+    pub fn set_pos(i: usize, p: usize) {
+        unsafe { POS[i] = p }
+    }
+    pub fn writes(i: usize) -> usize {
+        unsafe { WRITES[i] }
+    }
+    pub fn take_sent(_ch: &Chans) -> Option<(VariableID, PDU)> {
+        take_pdu()
     }
 }
-pub fn file_len(i: usize) -> usize {
-    unsafe { LEN[i] }
+#[cfg(test)]
+mod backend {
+    use super::*;
+    use std::io::{Seek, SeekFrom};
+    use std::os::unix::fs::FileExt;
+    static mut FILES: [Option<File>; NF] = [None, None, None, None];
+    static mut SNAP: [Vec<u8>; NF] = [Vec::new(), Vec::new(), Vec::new(), Vec::new()];
+    fn file(i: usize) -> &'static mut File {
+        unsafe {
+            if FILES[i].is_none() {
+                let mut p = std::env::temp_dir();
+                p.push(format!("cfdp_verif_replay_{}_{}_{:?}", std::process::id(), i, std::thread::current().id()));
+                let f = File::options().read(true).write(true).create(true).truncate(true).open(&p).unwrap();
+                let _ = std::fs::remove_file(&p);
+                FILES[i] = Some(f);
+            }
+            FILES[i].as_mut().unwrap()
+        }
+    }
+    fn content(i: usize) -> Vec<u8> {
+        let f = file(i);
+        let n = f.metadata().unwrap().len() as usize;
+        let mut v = vec![0u8; n];
+        f.read_exact_at(&mut v, 0).unwrap();
+        v
+    }
+    pub fn handle(i: usize) -> File {
+        file(i).try_clone().unwrap()
+    }
+    pub fn set_file(i: usize, data: &[u8]) {
+        let f = file(i);
+        f.set_len(0).unwrap();
+        f.write_all_at(data, 0).unwrap();
+        f.seek(SeekFrom::Start(0)).unwrap();
+        unsafe { SNAP[i] = data.to_vec() };
+    }
+    pub fn truncate(i: usize) {
+        let f = file(i);
+        f.set_len(0).unwrap();
+        f.seek(SeekFrom::Start(0)).unwrap();
+    }
+    pub fn file_len(i: usize) -> usize {
+        file(i).metadata().unwrap().len() as usize
+    }
+    pub fn file_byte(i: usize, k: usize) -> u8 {
+        let c = content(i);
+        if k < c.len() {
+            c[k]
+        } else {
+            0
+        }
+    }
+    pub fn file_pos(i: usize) -> usize {
+        file(i).stream_position().unwrap() as usize
+    }
+    pub fn set_pos(i: usize, p: usize) {
+        file(i).seek(SeekFrom::Start(p as u64)).unwrap();
+    }
+    /// native replay cannot count write calls: "written" = content differs from what the harness put there
+    pub fn writes(i: usize) -> usize {
+        if content(i) != unsafe { SNAP[i].clone() } {
+            1
+        } else {
+            0
+        }
+    }
+    pub fn take_sent(ch: &Chans) -> Option<(VariableID, PDU)> {
+        ch.rx.borrow_mut().try_recv().ok()
+    }
 }
-pub fn file_byte(i: usize, k: usize) -> u8 {
-    unsafe { DATA[i][k] }
-}
-pub fn file_pos(i: usize) -> usize {
-    unsafe { POS[i] }
-}
-pub fn set_pos(i: usize, p: usize) {
-    unsafe { POS[i] = p }
-}
-pub fn writes(i: usize) -> usize {
-    unsafe { WRITES[i] }
-}
+pub use backend::{file_byte, file_len, file_pos, handle, set_file, set_pos, take_sent, truncate, writes};
 pub fn opens(i: usize) -> usize {
     unsafe { OPENS[i] }
 }
@@ -222,6 +309,27 @@ pub fn ref_checksum(i: usize, n: usize) -> u32 {
         k += 1;
     }
     s
+}
+
+/// value of the `truncate` flag of an `OpenOptions` (which has no getters): the byte that differs between an
+/// options value with and without the flag is located once, on concrete values, and read from `o`
+pub fn opt_truncate(o: &OpenOptions) -> bool {
+    const N: usize = std::mem::size_of::<OpenOptions>();
+    let a = OpenOptions::new();
+    let mut b = OpenOptions::new();
+    b.truncate(true);
+    let (pa, pb, po) = (&a as *const OpenOptions as *const u8, &b as *const OpenOptions as *const u8, o as *const OpenOptions as *const u8);
+    let mut k = 0;
+    let mut r = false;
+    while k < N {
+        unsafe {
+            if *pa.add(k) != *pb.add(k) {
+                r = *po.add(k) == *pb.add(k);
+            }
+        }
+        k += 1;
+    }
+    r
 }
 
 // ------------------------------------------------------------------------------------------------ model FileStore
@@ -269,18 +377,19 @@ impl FileStore for ModelFs {
     fn list_directory<P: AsRef<Utf8Path>>(&self, _p: P) -> FileStoreResult<String> {
         unsupported()
     }
-    fn open<P: AsRef<Utf8Path>>(&self, p: P, _o: &mut OpenOptions) -> FileStoreResult<File> {
+    fn open<P: AsRef<Utf8Path>>(&self, p: P, o: &mut OpenOptions) -> FileStoreResult<File> {
         let i = name_idx(p.as_ref());
         unsafe {
             OPENS[i] += 1;
-            if i == DST {
-                if OPEN_DST_FAILS {
-                    return unsupported();
-                }
-                // the only opener of the destination name is finalisation: create + write + truncate
-                LEN[i] = 0;
+            if i == DST && OPEN_DST_FAILS {
+                return unsupported();
             }
-            POS[i] = 0;
+        }
+        // honour the `truncate` option like open(2) does: without it the old content beyond what is written stays
+        if opt_truncate(o) {
+            truncate(i);
+        } else {
+            set_pos(i, 0);
         }
         Ok(handle(i))
     }
@@ -289,8 +398,7 @@ impl FileStore for ModelFs {
             let i = TMP + TEMPS;
             assert!(i < NF, "at most two staging files per harness");
             TEMPS += 1;
-            LEN[i] = 0;
-            POS[i] = 0;
+            truncate(i);
             OPENS[i] += 1;
             Ok(handle(i))
         }
@@ -512,11 +620,54 @@ pub fn send_parts(cfg: TransactionConfig, md: Metadata, ch: &Chans) -> SendParts
 }
 pub fn recv_send(t: &mut RecvTransaction<ModelFs>, ch: &Chans) -> Option<(VariableID, PDU)> {
     verif::recv_send_pdu(t, ch.tx.try_reserve().unwrap()).unwrap();
-    take_pdu()
+    take_sent(ch)
 }
 pub fn send_send(t: &mut SendTransaction<ModelFs>, ch: &Chans) -> Option<(VariableID, PDU)> {
     verif::send_send_pdu(t, ch.tx.try_reserve().unwrap()).unwrap();
-    take_pdu()
+    take_sent(ch)
+}
+
+/// CONCRETE held-segment shapes of a 4-byte file (file lengths must be concrete for the checksum / copy code):
+/// 0: nothing; 1: (0,4) complete; 2: (0,2) tail missing; 3: (2,4) head missing; 4: (1,3); 5: (0,1),(3,4)
+pub const SHAPES: usize = 6;
+pub fn held_shape(shape: u8) -> (Segments, [u64; 4], usize) {
+    let (b, k): ([u64; 4], usize) = match shape {
+        0 => ([0, 0, 0, 0], 0),
+        1 => ([0, 4, 0, 0], 1),
+        2 => ([0, 2, 0, 0], 1),
+        3 => ([2, 4, 0, 0], 1),
+        4 => ([1, 3, 0, 0], 1),
+        _ => ([0, 1, 3, 4], 2),
+    };
+    let mut v = Vec::new();
+    let mut i = 0;
+    while i < k {
+        v.push((b[2 * i], b[2 * i + 1]));
+        i += 1;
+    }
+    (Segments::verif_from(v), b, k)
+}
+/// put a receiver's parts into the state "holds the segments of `shape` of a 4-byte file, staged in TMP with
+/// symbolic content" (holes read as arbitrary bytes: over-approximates a sparse file)
+pub fn stage_shape(p: &mut RecvParts<ModelFs>, shape: u8) -> ([u64; 4], usize) {
+    let (s, b, k) = held_shape(shape);
+    let content: [u8; CAP] = kani::any();
+    if k > 0 {
+        let end = b[2 * k - 1] as usize;
+        set_file(TMP, &content[..end]);
+        unsafe { TEMPS = 1 };
+        p.file_handle = Some(handle(TMP));
+    }
+    let mut held = 0;
+    let mut i = 0;
+    while i < k {
+        held += b[2 * i + 1] - b[2 * i];
+        i += 1;
+    }
+    p.saved_segments = s;
+    p.received_file_size = held;
+    p.nak_received_file_size = held;
+    (b, k)
 }
 
 /// segment list with k strictly ascending, non-adjacent symbolic segments below `limit`
